@@ -16,6 +16,11 @@ class EqValue(GenericValue):
     _changes: List[Change]
 
     def __eq__(self, other):
+        if compare_only():
+            # the alignment of the parent only wants to know if the current
+            # value matches, nothing is recorded or counted
+            return self._old_value == other
+
         if self._old_value is undefined:
             state().missing_values += 1
 
